@@ -31,6 +31,28 @@ type CompareCfg struct {
 	// CLI: the case is run through the code of the gedcom diff command
 	// itself (engine_cli.go) instead of the library call.
 	CLI bool `json:"cli,omitempty"`
+	// LeftDrop / RightDrop: indices (into the document's individuals) that are
+	// NOT part of the compared list, so that a list is only a part of its
+	// document (what Spouses(), Children() or a filtered list are).
+	LeftDrop  []int `json:"left_drop,omitempty"`
+	RightDrop []int `json:"right_drop,omitempty"`
+}
+
+func dropFrom(list gedcom.IndividualNodes, drop []int) gedcom.IndividualNodes {
+	if len(drop) == 0 {
+		return list
+	}
+	skip := map[int]bool{}
+	for _, i := range drop {
+		skip[i] = true
+	}
+	out := gedcom.IndividualNodes{}
+	for i, x := range list {
+		if !skip[i] {
+			out = append(out, x)
+		}
+	}
+	return out
 }
 
 func genCompareCase(prop, tier string, r *rand.Rand) *Case {
@@ -65,11 +87,37 @@ func genCompareCase(prop, tier string, r *rand.Rand) *Case {
 	if r.IntN(10) == 0 {
 		left, right = right, left
 	}
+	// decodable oddities: two records with one pointer, records without any
+	if r.IntN(8) == 0 {
+		for _, g := range []*Graph{left, right} {
+			for k := r.IntN(3); k > 0 && len(g.People) >= 2; k-- {
+				p := pick(r, g.People)
+				if r.IntN(3) == 0 {
+					p.Ptr = ""
+				} else {
+					p.Ptr = pick(r, g.People).Ptr
+				}
+			}
+		}
+	}
 	c := &Case{Prop: prop, Engine: "compare", Docs: []string{left.Text(), right.Text()}}
 	c.Compare = &CompareCfg{
 		Jobs:      pick(r, []int{0, 1, 2, 2, 3, 3, 8, 16}),
 		MinWS:     pick(r, []float64{-1, -1, -1, 0, 0.9, 1}),
 		PreferPtr: pick(r, []float64{-1, -1, 0, 1}),
+	}
+	if r.IntN(6) == 0 {
+		// lists that are only a part of their documents
+		for i := range left.People {
+			if r.IntN(3) == 0 {
+				c.Compare.LeftDrop = append(c.Compare.LeftDrop, i)
+			}
+		}
+		for i := range right.People {
+			if r.IntN(3) == 0 {
+				c.Compare.RightDrop = append(c.Compare.RightDrop, i)
+			}
+		}
 	}
 	if r.IntN(3) == 0 {
 		c.Compare.Notifier = "drain"
@@ -81,7 +129,7 @@ func genCompareCase(prop, tier string, r *rand.Rand) *Case {
 		c.Compare.DiffPage = true
 		c.Compare.DiffShow = pick(r, []string{html.DiffPageShowAll, html.DiffPageShowOnlyMatches, html.DiffPageShowSubset})
 		c.Compare.DiffSort = pick(r, []string{html.DiffPageSortWrittenName, html.DiffPageSortHighestSimilarity})
-		c.Compare.CLI = r.IntN(2) == 0
+		c.Compare.CLI = r.IntN(2) == 0 && len(c.Compare.LeftDrop)+len(c.Compare.RightDrop) == 0
 	}
 	c.Sim = GenSim(r)
 	return c
@@ -123,7 +171,7 @@ func runCompare(t *testing.T, cr *CaseResult, prop string, c *Case, cfg CompareC
 	sim.Labels = labels
 	sim.Today = parseToday(c.Today)
 
-	left, right := ld.Individuals(), rd.Individuals()
+	left, right := dropFrom(ld.Individuals(), cfg.LeftDrop), dropFrom(rd.Individuals(), cfg.RightDrop)
 	lidx := map[*gedcom.IndividualNode]int{}
 	ridx := map[*gedcom.IndividualNode]int{}
 	for i, x := range left {
@@ -258,7 +306,7 @@ type compareReference struct {
 func newCompareReference(c *Case, cfg *CompareCfg) *compareReference {
 	ld, _ := decode(c.Docs[0])
 	rd, _ := decode(c.Docs[1])
-	ref := &compareReference{left: ld.Individuals(), right: rd.Individuals(), full: map[pairIdx]float64{}}
+	ref := &compareReference{left: dropFrom(ld.Individuals(), cfg.LeftDrop), right: dropFrom(rd.Individuals(), cfg.RightDrop), full: map[pairIdx]float64{}}
 	ref.opts = compareOptions(cfg).SimilarityOptions
 	for _, x := range ref.left {
 		ref.uidL = append(ref.uidL, x.UniqueIdentifiers().Strings())
@@ -358,6 +406,21 @@ func runCompareCase(t *testing.T, c *Case) *CaseResult {
 	cr.Trace = run.res.Trace
 	if cfg.Jobs > 1 {
 		cr.Probes["jobs>1"]++
+	}
+	if len(cfg.LeftDrop)+len(cfg.RightDrop) > 0 {
+		cr.Probes["list_is_part_of_document"]++
+	}
+	for _, text := range c.Docs {
+		seen := map[string]bool{}
+		for _, line := range strings.Split(text, "\n") {
+			if strings.HasSuffix(line, " INDI") || line == "0 INDI" {
+				if seen[line] || line == "0 INDI" {
+					cr.Probes["duplicate_or_no_pointer"]++
+					break
+				}
+				seen[line] = true
+			}
+		}
 	}
 
 	switch run.res.Outcome {
